@@ -39,7 +39,12 @@ type daemonRunResult struct {
 
 func daemonRun(r *vlib.Rng, nsess int, big, uncorrelated, race, phased bool) *daemonRunResult {
 	res := &daemonRunResult{}
-	d, err := startDaemon(daemonOpts{race: race})
+	// every third scenario runs the daemon at debug log level
+	lvl := ""
+	if r.Intn(3) == 0 {
+		lvl = "debug"
+	}
+	d, err := startDaemon(daemonOpts{race: race, logLevel: lvl})
 	if err != nil {
 		res.why = "cannot start daemon: " + err.Error()
 		return res
